@@ -48,7 +48,7 @@ func oracleC03(l *harness.Live) (c03Info, *harness.Failure) {
 	env := &xref.Env{Doc: l.Doc}
 	want, err := refNodes(l)
 	if err != nil {
-		return info, harness.Failf("reference evaluates", err.Error(), "generator left the reference fragment")
+		return info, refFailure(err)
 	}
 	info.want = want.IDs()
 	ids, f := engineSelect(l)
@@ -157,10 +157,15 @@ func c03Doc() xgen.DocOpts {
 
 func TestC03Rapid(t *testing.T) {
 	runRapid(t, uC03, func(rt *rapid.T) {
-		doc := xgen.Doc(rt, c03Doc())
+		o := c03Doc()
+		shape := xgen.Shape(rt, &o)
+		doc := xgen.Doc(rt, o)
 		ctx := xgen.Context(rt, doc, 5)
 		g := xgen.NewG(rt, doc)
 		g.ElNames = xgen.ElNames2
+		if shape == "doc:wide" {
+			g.PosLits = []string{"1", "2", "9", "10", "11", "12", "13", "3"} // two-digit positions
+		}
 		e := g.PosExpr(ctx)
 		l := &harness.Live{Property: "C03", Check: "C03/positional", Doc: doc, Ctx: ctx, AST: e, Expr: xast.Render(e), Flavour: flavourOf(rt)}
 		info, f := oracleC03(l)
@@ -170,6 +175,7 @@ func TestC03Rapid(t *testing.T) {
 			}
 			harness.Report(rt, uC03, l, f)
 		}
+		info.labels = append(info.labels, shape)
 		uC03.Case(harness.Mix(doc.Hash(), uint64(ctx.ID), harness.Hash64(l.Expr)), info.nontrivial, info.labels, func() interface{} {
 			return l.Sample("result", describe(doc, info.want))
 		})
